@@ -54,6 +54,22 @@ def run_codec(seed, cases):
     return None, [l for l in lines if not l.startswith("STATS")], stats
 
 
+def run_blobs():
+    outp = os.path.join(V.WORK, "c17_blobs.out")
+    if os.path.exists(outp):
+        os.remove(outp)
+    rc, out = V.go_test("interceptor", ["zz_verif_blobrepair_test.go"], "^TestVerifBlobRepair$", env={"VERIF_OUT": outp}, timeout=900)
+    if rc != 0 or not os.path.exists(outp):
+        return "blob repair harness failed:\n" + out[-2000:], [], {}
+    diffs, stats = [], {}
+    for l in open(outp).read().split("\n"):
+        if l.startswith("STATS"):
+            stats = {k: int(v) for k, v in (p.split("=") for p in l.split()[1:])}
+        elif l:
+            diffs.append(l)
+    return None, diffs, stats
+
+
 def check(tier, seed):
     ck = V.Check(PROP, tier, seed)
     ck.trusted = V.std_trusted() + [
@@ -104,6 +120,15 @@ def check(tier, seed):
                   "unrepairable input is an error; truncated/garbled input errs iff the standard codec errs (%s)" % stats, not diffs, "%d disagree; first %s" % (len(diffs), diffs[0][:300] if diffs else ""))
     for d in diffs[:1]:
         problems.append(("codec", {"kind": "codec", "seed": seed, "cases": cases, "line": d, "all": diffs[:15]}, d[:400]))
+    # the second repair site: history-event blobs inside messages, repaired by the translation interceptor's walker
+    berr, bdiffs, bstats = run_blobs()
+    ck.obligation("history blobs through the interceptor's walker: every subset of the events of a 1-3 event batch damaged (5 kinds of damage, top of the chain or in a cause): what is handed on decodes with "
+                  "the standard serializer and equals the batch with only the offending bytes replaced; valid batches byte-identical (%s)" % bstats, not berr and not bdiffs and bstats.get("batches", 0) > 100,
+                  berr or ("%d disagree; first %s" % (len(bdiffs), bdiffs[0][:300] if bdiffs else "")))
+    for d in bdiffs[:1]:
+        problems.append(("blob", {"kind": "blob", "line": d, "all": bdiffs[:15]}, d[:400]))
+    stats = dict(stats)
+    stats["blob_batches"] = bstats.get("batches", 0)
     total = len(lines) + sum(v for k, v in stats.items() if k != "roots")
     ck.cov.update({"evaluations": total, "distinct_nontrivial": stats.get("invalid-failure", 0) + stats.get("invalid-other-field", 0) + stats.get("chain-11", 0),
                    "traces_validated_against_impl": total, "codec_stats": stats, "utf8_strings": len(lines)})
@@ -131,6 +156,10 @@ def replay(data):
         err, diffs, stats = run_codec(data["seed"], data["cases"])
         print(err or "\n".join(diffs[:10]) or "(no disagreement)")
         return 1 if diffs else 0
+    if data.get("kind") == "blob":
+        err, diffs, stats = run_blobs()
+        print(err or "\n".join(diffs[:10]) or "(no disagreement)")
+        return 1 if err or diffs else 0
     if data.get("kind") == "utf8" or data.get("line"):
         err, impl = L.run_impl("proto/compat", GO, "TestVerifUtf8", [data["line"]], "c17r")
         print(data["line"], "->", impl, "(recorded %s, model %s)" % (data.get("impl"), data.get("model")))
